@@ -184,3 +184,34 @@ func VerifC03Reuse() {
 	_ = z
 	verifnd.Reach("C03.reuse.done")
 }
+
+// VerifC03Switch: what the members of A receive from a participant does not depend on whether that
+// participant was in another session before (its own, or B) — including the frame-scheduled traffic
+// (pose and component updates), which only flows if the connection's frame handler is registered with A.
+func VerifC03Switch() {
+	s := newStepWorld(stepShape{mods: vModVikja | vModOdal, preset: 0})
+	x := s.w.newConn()
+	prior := verifnd.Choice(3)
+	priorName := "none"
+	switch prior {
+	case 1:
+		priorName = "own_session"
+		x.mustJoin("")
+	case 2:
+		priorName = "session_b"
+		x.mustJoin(s.b0.sid)
+	}
+	x.mustJoin(s.a0.sid)
+	s.w.drainAll()
+	e := x.addEntity(false, &hagallpb.Pose{})
+	s.w.drainAll()
+	// frame-scheduled traffic
+	x.dispatch(&hagallpb.EntityUpdatePose{Type: hagallpb.MsgType_MSG_TYPE_ENTITY_UPDATE_POSE, Timestamp: vts(), EntityId: e, Pose: &hagallpb.Pose{Px: 5}})
+	verifnd.FireTickers(vFrame)
+	x.pump()
+	got := s.a1.drain()
+	verifnd.Assert(countType(got, hagallpb.MsgType_MSG_TYPE_ENTITY_UPDATE_POSE_BROADCAST) == 1 && len(got) == 1, "C03.switch.same_stream_whatever_the_prior_session", priorName)
+	verifnd.Assert(len(s.b0.drain()) == 0, "C03.switch.left_session_hears_nothing", priorName)
+	verifnd.Reach("C03.switch.done")
+	verifnd.Reach("C03.switch." + priorName)
+}
